@@ -205,7 +205,7 @@ func getServer(cfg Cfg) (*liveServer, error) {
 			return decide(id, strings.HasPrefix(pwd, "pw-"))
 		})
 		b.EnableKeyAuthentication(func(ctx context.Context, id lime.Identity, key string) (*lime.AuthenticationResult, error) {
-			return decide(id, strings.HasPrefix(key, "pw-"))
+			return decide(id, strings.HasPrefix(key, "ky-"))
 		})
 		b.EnableExternalAuthentication(func(ctx context.Context, id lime.Identity, token string, issuer string) (*lime.AuthenticationResult, error) {
 			return decide(id, strings.HasPrefix(token, "tok-") && strings.HasPrefix(issuer, "iss-"))
